@@ -694,6 +694,11 @@ class LenClass:
                 if is_def(inner) and all(c == inner or c == S for c in cs):
                     return ("ROWS", inner)
                 return inner if inner == S else TOP
+        if short in ("array", "asarray", "asanyarray", "ascontiguousarray", "copy") and pos and \
+                pos[0].op not in ("Tuple", "List", "ListComp", "ListOf", "Const"):
+            return self.of(pos[0])      # a (copy of the) array it is given: same events
+        if short == "searchsorted" and len(pos) >= 2:
+            return self.of(pos[1])
         if short in ("subtract.outer", "add.outer", "multiply.outer", "outer") and pos:
             return self.of(pos[0])      # rows follow the first operand
         if short in ("arange",) and pos:
